@@ -147,3 +147,14 @@ pub use crate::intern::Lookup;
 pub use crate::intern::SerGuard;
 #[doc(inline)]
 pub use crate::intern::WithIntern;
+
+/// Verification hook: lets a deterministic simulator drive the crate-private
+/// concurrent data structures directly. Compiled only with
+/// `--cfg isographlabs_isograph_verif`.
+#[cfg(isographlabs_isograph_verif)]
+pub mod verif_exports {
+    pub use crate::atomic_arena::AtomicArena;
+    pub use crate::atomic_arena::Ref;
+    pub use crate::sharded_set::ShardedSet;
+    pub use crate::small_bytes::SmallBytes;
+}
